@@ -186,8 +186,9 @@ def r20_4(ctx):
     dp = m.func('managers:dispatch')
 
     def handled(fi, kind):
-        return any(isinstance(x, ast.Compare) and isinstance(x.ops[0], ast.Eq) and
-                   any(isinstance(y, ast.Constant) and y.value == kind for y in [x.left] + x.comparators)
+        return any(isinstance(x, ast.Compare) and isinstance(x.ops[0], (ast.Eq, ast.NotEq, ast.In, ast.NotIn)) and
+                   any(isinstance(y, ast.Constant) and y.value == kind for z in [x.left] + x.comparators
+                       for y in ast.walk(z))
                    for x in walk_own(fi.node))
     for k in sorted(kinds):
         via_call = handled(cm, k) or (handled(ce, k) and bool(q.calls(cm, 'convert_to_error')))
